@@ -123,7 +123,13 @@ func genCase(t *rapid.T) Case {
 		}
 		c.Hold = kept
 	}
-	if gen.Chance(t, "endcreator", 6) {
+	endCreatorOneIn := 6
+	if c.Body == "ignore" {
+		// a body that ignores cancellation is still running after its creator's context has ended: cancels issued
+		// then are still cancels of a running future
+		endCreatorOneIn = 2
+	}
+	if gen.Chance(t, "endcreator", endCreatorOneIn) {
 		// the context of the evaluation that created the future ends (its host is done with it) at some point
 		pos := gen.Uniform(t, "endcreatorat", len(c.Sched)+1)
 		c.Sched = append(c.Sched[:pos], append([]Ev{{Kind: "endcreator"}}, c.Sched[pos:]...)...)
@@ -419,7 +425,10 @@ func check(c Case) pbt.Verdict {
 			time.Sleep(time.Duration(ev.Ms) * time.Millisecond)
 		case "endcreator":
 			// from now on the body is no longer held by the harness alone: its own context is over
-			bodyReleased.CompareAndSwap(0, time.Now().UnixNano())
+			// (a body that ignores cancellation stays parked, and is still running, all the same)
+			if c.Body != "ignore" {
+				bodyReleased.CompareAndSwap(0, time.Now().UnixNano())
+			}
 			creatorEnded = true
 			creatorCancel()
 		}
